@@ -16,6 +16,14 @@ user, 1..4 distributed peers, 5..8 other users), connection ids are creation ord
                    carrier "dist"   DistributedSearchRequest.Request(unknown, user, ticket, query)
                    carrier "legacy" DistributedServerSearchRequest.Request(code, unknown, user, ticket, query)
   ["burst", [search…]]   several carriers back to back without running the loop in between
+  ["fault", c, mode, search, [op…]]
+        FAULTY / SLOW CHILD (monitor only, the model is atomic). The library-side socket of distributed
+        connection c (a child) is made faulty, then `search` is issued and the loop run to quiescence, then each
+        listed op (closes, joins) is issued and the loop run to quiescence, then the fault is lifted:
+        mode "fail"  : the next write on that socket raises ConnectionResetError (FakeWriter.fail_after);
+        mode "block" : drain() of that socket blocks (slow reader, full buffer) until the end of the op and then
+                       returns normally — also when the socket was closed meanwhile, as asyncio's flow control
+                       does (same construction as the `gate` op of props/c13.py).
 
 After every op the loop is run to quiescence. For a search op the observation is: the DistributedSearchRequest
 frames (and any other frame) each distributed remote received, the PeerSearchReply frames (and anything else)
@@ -38,14 +46,21 @@ from typing import Any, Optional
 
 from vlib import common
 from vlib.common import KResult, Violation, Disagreement, Property
-from props.c13 import (ME, SERVER_ADDR, LISTEN_PORT, uname, unum, peer_addr, _Remote, _World, _flat_ops,
-                       LEVELS)
+from props.c13 import (ME, SERVER_ADDR, LISTEN_PORT, uname, unum, peer_addr, _Remote, _World, LEVELS)
 
 FRIENDS = [1]            # settings.users.friends
 BLOCKED_SEARCH = [7]     # blocked with BlockingFlag.SEARCHES
 BLOCKED_OTHER = [6]      # blocked for something else (uploads): must still be answered
 USERS_DIR = [2]          # users of the USERS-mode directory
 SEARCH_CODE = 3
+
+
+def _flat_ops(op):
+    if op[0] == 'burst':
+        return list(op[1])
+    if op[0] == 'fault':
+        return [op[3]] + list(op[4])
+    return [op]
 
 
 def asker_addr(n: int):
@@ -442,6 +457,36 @@ async def _scenario(loop, case: dict):
             mk = marks()
             if op[0] == 'burst':
                 status = 'burst:' + ','.join([await issue(sub) for sub in op[1]])
+            elif op[0] == 'fault':
+                _, victim, mode, sop, during = op
+                sts, gate = [], None
+                ok_v = (isinstance(victim, int) and 0 <= victim < len(w.remotes)
+                        and remote_open(w.remotes[victim]))
+                if ok_v:
+                    lw = w.remotes[victim].writer.peer        # the library-side writer of that connection
+                    if mode == 'fail':
+                        lw.fail_after = len(lw.sent)
+                    else:
+                        ev = asyncio.Event()
+
+                        async def gated_drain(ev=ev):
+                            await ev.wait()
+                        lw.drain = gated_drain
+                        gate = (lw, ev)
+                try:
+                    sts.append(await issue(sop))
+                    await settle()
+                    for sub in during:
+                        sts.append(await issue(sub))
+                        await settle()
+                finally:
+                    if gate is not None:
+                        gate[1].set()
+                        try:
+                            del gate[0].drain
+                        except AttributeError:
+                            pass
+                status = 'fault:' + ','.join(sts) + ('' if ok_v else ':nofault')
             else:
                 status = await issue(op)
             await settle()
@@ -489,7 +534,7 @@ def _canon(s: dict) -> str:
     rs = sorted(f"{r['to']}:{r['ticket']}:{r['username']}:{_lst(map(_hx, r['visible']), ',')}:"
                 f"{_lst(map(_hx, r['locked']), ',')}" for r in s['replies'])
     es = sorted(f'{e[0]}:{_hx(e[1])}:{e[2]}' for e in s['events'])
-    st = s['status'].split(':')[0] if s['status'].startswith('burst') else s['status']
+    st = s['status'].split(':')[0] if s['status'].startswith(('burst', 'fault')) else s['status']
     extra = ''
     if s['is_search'] and (s['other'] or s['pother'] or s['srv']):
         extra = f" X={sorted(s['other'].items())}{sorted(s['pother'].items())}{s['srv']}"
@@ -535,19 +580,28 @@ def _monitor(case: dict, trace: list) -> list[Violation]:
         subs = _flat_ops(op)
         if not any(o[0] == 'search' for o in subs):
             continue
-        statuses = s['status'].split(':', 1)[1].split(',') if s['status'].startswith('burst') else [s['status']]
+        statuses = (s['status'].split(':')[1].split(',') if s['status'].startswith(('burst', 'fault'))
+                    else [s['status']])
         reqs = [o for o, st in zip(subs, statuses) if o[0] == 'search' and st == 'ok']
         b = s['before']
         children = list(b['children'])
+        allowed = list(children)
+        if op[0] == 'fault':
+            # membership changes while the carrier is being passed on: "every current child" is demanded of the
+            # connections that were children when the carrier arrived AND still are at the end (a child whose own
+            # write failed or that was closed meanwhile is exempt); a child that joined meanwhile may or may not
+            # get it.
+            allowed = children + [c for c in s['children'] if c not in children]
+            children = [c for c in children if c in s['children'] and c in s['open']]
         parent = b['parent']
         logged_in = b['session'] and b['dn_session'] and b['sm_session']
         # --- to no other connection: a forwarded search is only ever received by a current child
         for c, frs in s['fwd'].items():
-            if c not in children:
+            if c not in allowed:
                 role = 'the parent' if c == parent else ('a closed/unregistered connection' if c not in b['live']
                                                          else 'a candidate / other distributed connection')
                 add('C14-forward-to-non-child', f'connection {c} ({role}) received {len(frs)} forwarded search '
-                    f'request(s); children are {children}', k, observed=frs)
+                    f'request(s); children are {allowed}', k, observed=frs)
         own = [r for r in reqs if r[5] == ME]
         foreign = [r for r in reqs if r[5] != ME]
         # --- own searches: neither forwarded nor answered
@@ -580,6 +634,9 @@ def _monitor(case: dict, trace: list) -> list[Violation]:
                 if got != want:
                     if len(got) < len(want):
                         sig, what = 'C14-fanout-missing', 'did not receive the search request'
+                        if op[0] == 'fault':
+                            what += (f' (it was a child when the carrier arrived and still is; connection {op[1]} '
+                                     f'had a {"failing write" if op[2] == "fail" else "blocked drain()"} meanwhile)')
                     elif len(got) > len(want):
                         sig, what = 'C14-fanout-duplicate', 'received the search request more than once'
                     else:
@@ -626,7 +683,7 @@ CODES = [3, 3, 3, 3, 0, 4, 93, 255]
 def _gen_case(rng: random.Random, kind: Optional[str] = None) -> dict:
     peers = [1, 2, 3, 4]
     kind = kind or rng.choice(['root', 'root', 'parent', 'parent', 'parent', 'churn', 'churn', 'sources', 'burst',
-                               'nosession'])
+                               'nosession', 'fault', 'fault'])
     layout = rng.choice([0, 1, 1, 2, 2, 2, 3])
     ops: list = []
     nconn = 0
@@ -656,14 +713,15 @@ def _gen_case(rng: random.Random, kind: Optional[str] = None) -> dict:
     def query():
         return rng.choice(QUERIES) if rng.random() < 0.85 else rng.choice(QUERIES[:9])
 
-    def search(src, carrier=None):
+    def search(src, carrier=None, foreign=False):
         if src == 's':
             carrier = 'server'
         elif carrier is None:
             carrier = rng.choice(['dist', 'dist', 'legacy'])
-        code = rng.choice(CODES) if carrier != 'dist' else 3
-        return ['search', src, carrier, code, rng.choice(UNKNOWNS), user(), rng.choice(TICKETS)
-                if rng.random() < 0.7 else rng.randrange(2 ** 32), query()]
+        code = rng.choice(CODES) if carrier != 'dist' and not foreign else 3
+        return ['search', src, carrier, code, rng.choice(UNKNOWNS),
+                rng.choice([1, 2, 3, 4, 5, 8]) if foreign else user(),
+                rng.choice(TICKETS) if rng.random() < 0.7 else rng.randrange(2 ** 32), query()]
 
     def conn():
         if nconn == 0 or rng.random() < 0.05:
@@ -746,6 +804,41 @@ def _gen_case(rng: random.Random, kind: Optional[str] = None) -> dict:
             par, _ = get_parent(False)
         src = par if par is not None else 's'
         do(['burst', [search(src) for _ in range(rng.choice([2, 2, 3]))]])
+    elif kind == 'fault':
+        # a carrier arrives with 2..4 children while one child's socket fails its write / blocks in drain()
+        names = [1, 2, 3, 4, 5, 8]
+        par, pname = None, None
+        if rng.random() < 0.5:
+            pname = rng.choice(peers)
+            par = nconn
+            do(['pp', [pname]])
+            do(['level', par, rng.choice([1, 2, 3])])
+            do(['root', par, rng.choice([5, 6])])
+        k = rng.choice([2, 3, 3, 4])
+        first = nconn
+        for nm in rng.sample([x for x in names if x != pname], k):
+            do(['in', nm])
+        kids = list(range(first, first + k))
+        victim = rng.choice([kids[0], kids[0], kids[-1], kids[len(kids) // 2], rng.choice(kids)])
+        others = [c for c in kids if c != victim]
+        mode = rng.choice(['fail', 'block', 'block'])
+        during: list = []
+        x = rng.random()
+        if mode == 'block':
+            if x < 0.40:
+                during = [['close', victim]]
+            elif x < 0.75:
+                during = [['close', rng.choice(others)]]
+            elif x < 0.85:
+                during = [['close', rng.choice(others)], ['close', victim]]
+            elif x < 0.93:
+                during = [['in', rng.choice([n for n in names if n != pname])]]
+        elif x < 0.2:
+            during = [['close', rng.choice(others)]]
+        src = par if par is not None else 's'
+        do(['fault', victim, mode, search(src, foreign=True), during])
+        if rng.random() < 0.5:
+            do(search(src, foreign=True))
     elif kind == 'nosession':
         children(nchild)
         if up and rng.random() < 0.7:
@@ -802,6 +895,11 @@ def _model_lines(case: dict) -> tuple[list[str], list[int]]:
     return out, [head] + spans
 
 
+def _monitor_only(case) -> bool:
+    """faulty / slow child cases: the model is atomic per op"""
+    return any(op[0] == 'fault' for op in case['ops'])
+
+
 def _eval_case(case):
     try:
         tr = _run_impl(case)
@@ -821,6 +919,19 @@ WITNESSES = {
         'ops': [['session'], ['in', 1], ['in', 3], ['pp', [2]], ['level', 2, 0],
                 ['search', 2, 'legacy', 3, 49, ME, 78, 'one']],
         'kind': 'witness', 'layout': 2, 'asker_closes': False},
+    # faulty / slow sibling while a carrier is passed on (the property holds on HEAD: one queued task per child)
+    'fault-first-child-write-fails': {
+        'ops': [['session'], ['in', 1], ['in', 2], ['in', 3],
+                ['fault', 0, 'fail', ['search', 's', 'server', 3, 49, 5, 77, 'rock'], []]],
+        'kind': 'witness', 'layout': 1, 'asker_closes': True},
+    'fault-child-closed-while-its-write-drains': {
+        'ops': [['session'], ['pp', [4]], ['level', 0, 1], ['root', 0, 5], ['in', 1], ['in', 2], ['in', 3],
+                ['fault', 1, 'block', ['search', 0, 'dist', 3, 49, 5, 78, 'one'], [['close', 1]]]],
+        'kind': 'witness', 'layout': 2, 'asker_closes': True},
+    'fault-sibling-closed-while-a-write-drains': {
+        'ops': [['session'], ['in', 1], ['in', 2], ['in', 3],
+                ['fault', 1, 'block', ['search', 's', 'server', 3, 49, 8, 79, 'jazz'], [['close', 0]]]],
+        'kind': 'witness', 'layout': 1, 'asker_closes': False},
 }
 
 
@@ -835,7 +946,8 @@ class C14(Property):
             'queries incl. empty, exclusion-only, non-word, unicode, 300 chars) over 4 share layouts (nothing / '
             'public / public+friends+users / locked only), generated from VERIF_SEED (families: branch root, '
             'below a parent, churn = children joining/leaving between requests, mixed sources, back-to-back '
-            'bursts, no session); a case is non-trivial when some carrier was forwarded to a child or answered; '
+            'bursts, no session, faulty/slow child [monitor only: the write to a chosen child fails, or its drain() blocks '
+            'while that child or a sibling is closed / a child joins]); a case is non-trivial when some carrier was forwarded to a child or answered; '
             'distinct = distinct canonical (ops, layout)')
     assumptions = [
         'every asking user is reachable: the server answers GetPeerAddress and the direct peer connection '
@@ -846,7 +958,9 @@ class C14(Property):
         'is computed by the harness\'s own matcher on a plain vocabulary (lower/upper-case ASCII words, exclusion '
         'terms, no wildcards) and handed to the model as the abstract `answer` table',
         'ops are separated by quiescence of the event loop; back-to-back carriers (burst) are compared as the '
-        'union of the per-carrier model outputs',
+        'union of the per-carrier model outputs; faulty/slow-child cases (fault) are evaluated by the monitor only '
+        '(the model is atomic per op): every connection that was a child when the carrier arrived and still is a '
+        'live child at the end must have received it exactly once, nobody else anything',
         'C13 assumptions for the tree part (debug.search_for_parent, reachable potential parents)',
         '"searches that originate from the logged-in user" is read on the session\'s user name; without a session '
         'nothing is demanded for own-name carriers',
@@ -886,12 +1000,19 @@ class C14(Property):
         if model_ok:
             lines, layout = [], []
             for c in cases:
+                if _monitor_only(c):
+                    layout.append(None)
+                    continue
                 ls, spans = _model_lines(c)
                 layout.append((len(lines), spans))
                 lines += ls
             out = common.run_driver(self.driver_file, lines)
             model = []
-            for start, spans in layout:
+            for ent in layout:
+                if ent is None:
+                    model.append(None)
+                    continue
+                start, spans = ent
                 pos = start + spans[0]
                 per_op = []
                 for n in spans[1:]:
@@ -938,7 +1059,9 @@ class C14(Property):
                         res.count('status:' + s['status'])
                     if not b['session']:
                         res.count('search-state:no-session')
-            if model is not None:
+            if model is not None and model[i] is None:
+                res.count('monitor-only')
+            if model is not None and model[i] is not None:
                 res.traces_validated += 1
                 if model[i] != r['lines']:
                     k = next((j for j, (a, b) in enumerate(zip(model[i], r['lines'])) if a != b),
